@@ -5,6 +5,15 @@ round-trip under the hypothesis the proof forces — finding S10b).  Tie: corres
 real `isotherm_to_json` / `isotherm_from_json` on the very documents the library writes (the Lean driver parses the real JSON text).
 Failing-input search: full round trips on real objects over the three classes, all unit configurations, metadata from a
 JSON-value grammar, 1-40 points with every branch situation and extra columns, every model; string and file targets.
+
+Missing values (isogen `missing=True`, about half of the contents): NaN cells in extra numeric columns, in pressure and in loading,
+None cells in text and flag columns, whole columns missing — crossed with every branch layout (ads only / des only / two branches /
+user list), because the importer takes a different path when the document carries a `branch` key; models without fit error / ranges
+(NaN in the model dictionary), exact zeros, des-branch models.  The oracles compare cell by cell (NaN equals NaN only, None equals None
+only), the identifier, and the second export byte for byte.  The Lean side: `Scalar.nan`, the step-by-step reader `decodeFrame`
+(table with absent key -> missing cell, only the `branch` column rewritten) run on the same real documents as `decode`.
+Measured domain restriction (unchanged tree): a table whose pressures are ALL missing and whose points are all adsorption is written
+without any branch key and cannot be read back (`idxmax` of an all-NaN column raises ValueError) — the generator keeps at least one pressure.
 """
 import json
 import os
@@ -28,8 +37,10 @@ def run(ck):
     lines, plan = [], []
     try:
         for i in range(n):
-            c = isogen.content(rng)
+            c = isogen.content(rng, missing=(i % 9) in (1, 3, 5, 7))
             sig = {"class": c["kind"]}
+            if c.get("missing"):
+                sig["gaps"] = sorted({g.split(":")[0] for g in c["missing"]})
             try:
                 iso = isogen.build(pg, c)
             except Exception as e:  # noqa
@@ -42,24 +53,29 @@ def run(ck):
                     sig["via_conversion"] = True
                 except Exception:
                     iso = isogen.build(pg, c)
-            before = isogen.observe(pg, iso)
+            before = _observe(pg, iso)
             id0 = iso.iso_id
             # ------------------------------------------------ export / import (string or file)
             use_file = i % 3 == 0
             try:
+                via_method = i % 2 == 1             # the isotherm's own `to_json` method or the parsing function: same document
                 if use_file:
                     path = os.path.join(tmpdir, f"iso{i}.json")
-                    isotherm_to_json(iso, path)
+                    iso.to_json(path) if via_method else isotherm_to_json(iso, path)
                     text = open(path, encoding="utf-8").read()
                     iso2 = isotherm_from_json(path)
                 else:
-                    text = isotherm_to_json(iso)
+                    text = iso.to_json() if via_method else isotherm_to_json(iso)
                     iso2 = isotherm_from_json(text)
+                other = isotherm_to_json(iso) if via_method else iso.to_json()
+                if other != text:
+                    ck.fail_case({**sig, "clause": "method and function write different documents", "target": "file" if use_file else "string"},
+                                 {"content": _short(c), "one": text[:300], "other": other[:300]})
             except Exception as e:  # noqa
                 ck.count(("roundtrip", i), bucket=f"{c['kind']}:refused")
                 ck.fail_case({**sig, "clause": "export/import raises", "error": type(e).__name__}, {"content": _short(c), "error": repr(e)[:300]})
                 continue
-            after = isogen.observe(pg, iso2)
+            after = _observe(pg, iso2)
             guess_differs = False
             if c["kind"] == "point":
                 marks = c["branch"]
@@ -67,10 +83,15 @@ def run(ck):
                     g = [int(x) for x in split_ads_data(pd.DataFrame({"p": c["pressure"]}), "p")]
                     guess_differs = g != list(marks)
                 sig["all_ads_marks_but_guess_differs"] = guess_differs
+                sig["layout"] = _layout(marks)
             ck.count(("roundtrip", c["kind"], i), bucket=f"{c['kind']}:{'file' if use_file else 'string'}",
                      sample={"document": text[:300]} if i % 97 == 0 else None)
+            if c.get("missing"):
+                ck.count(("gaps", i), nontrivial=False, bucket="gaps:" + (f"point, layout {sig['layout']}" if c["kind"] == "point" else "model"))
+                for g in sig["gaps"]:
+                    ck.count(("gap-kind", g, i), nontrivial=False, bucket="gaps in: " + g)
             # the isotherm is not modified by exporting it
-            if isogen.observe(pg, iso) != before or iso.iso_id != id0:
+            if _diff(before, _observe(pg, iso)) or iso.iso_id != id0:
                 ck.fail_case({**sig, "clause": "export modified the isotherm"}, {"content": _short(c)})
             # ------------------------------------------------ equality, key by key with types
             diffs = _diff(before, after)
@@ -100,12 +121,14 @@ def run(ck):
             # ------------------------------------------------ requests for the Lean codec model
             lines.append("decode " + text)
             plan.append(("decode", c, after, sig, text))
+            lines.append("decodeframe " + text)
+            plan.append(("decodeframe", c, after, sig, text))
             lines.append("encode " + json.dumps(_iso_json(before)))
             plan.append(("encode", c, text, sig, None))
         # ------------------------------------------------ fitted models with a hidden temperature term (DR / DA) on isotherms stored in °C
         for j in range(ck.n(3, 8)):
             name = rng.choice(["DR", "DA"])
-            t_c = rng.choice([-195.795, -185.85, 25.0])
+            t_c = [25.0, -195.795, -185.85][j % 3]        # every run has the temperature at which °C and K give clearly different predictions
             rel = np.array(sorted(rng.uniform(1e-4, 0.95) for _ in range(14)))
             nm, e_ = rng.uniform(2, 9), rng.uniform(4e3, 2e4)
             load = nm * np.exp(-((-8.31446261815324 * (t_c + 273.15) * np.log(rel)) / e_) ** (2 if name == "DR" else 2.4))
@@ -122,6 +145,71 @@ def run(ck):
             if not np.allclose(a, b, rtol=1e-12, atol=0):
                 ck.fail_case({"class": "model", "clause": "model predictions differ after the round trip", "model": name, "fitted": True, "temperature_unit": "°C"},
                              {"temperature": t_c, "before": a.tolist(), "after": b.tolist()})
+        # ------------------------------------------------ every model kind as a FIT produces it (ranges taken from the data, fit error and
+        # parameters as numpy scalars straight out of the optimiser), on either branch of two-branch data; model dictionary, predictions, document
+        names = ["Henry", "Langmuir", "DSLangmuir", "TSLangmuir", "BET", "GAB", "Freundlich", "DR", "DA", "Quadratic", "TemkinApprox", "Toth",
+                 "JensenSeaton", "Virial", "FHVST", "WVST"]
+        rng.shuffle(names)
+        for j in range(ck.n(10, 48)):
+            name = names[j % len(names)]
+            rel = name in REL_ONLY or rng.random() < 0.3
+            npts = rng.choice([9, 14, 22])
+            top = rng.uniform(0.5, 0.95) if rel else rng.uniform(0.8, 12.0)
+            pa = np.array(sorted(rng.uniform(top * 2e-3, top) for _ in range(npts)))
+            if rng.random() < 0.3:
+                pa[0] = 0.0 if name not in ("DR", "DA", "Freundlich", "Virial", "TemkinApprox") else pa[0]     # a measured origin gives a range starting at exactly 0
+            nm, kk = rng.uniform(1.5, 9), rng.uniform(0.5, 6) / top
+            la = nm * kk * pa / (1 + kk * pa) * np.array([1 + 0.01 * rng.uniform(-1, 1) for _ in range(npts)])
+            k = rng.randint(2, 5)
+            pd_, ld_ = pa[::-1][1:k + 1], (la * 1.05)[::-1][1:k + 1]
+            br = rng.choice(["ads", "des"]) if name not in ("DR", "DA") else "ads"
+            # stored in K or in °C (models with a temperature term hidden outside their dictionary must come back with the same one)
+            temp = ({"temperature": rng.choice([77.355, 87.3, 298.15]), "temperature_unit": "K"} if rng.random() < 0.5 else
+                    {"temperature": rng.choice([25.0, 30.0, 50.0]), "temperature_unit": "°C"})
+            frame = pd.DataFrame({"pressure": np.concatenate([pa, pd_]), "loading": np.concatenate([la, ld_]), "branch": [0] * npts + [1] * k})
+            try:
+                fit = pg.ModelIsotherm(isotherm_data=frame, pressure_key="pressure", loading_key="loading", branch=br, model=name, material="pgv-synth",
+                                       adsorbate="N2", **temp,
+                                       pressure_mode="relative" if rel else "absolute", pressure_unit=None if rel else rng.choice(isogen.PA),
+                                       loading_basis="molar", loading_unit="mmol", material_basis="mass", material_unit="g", **isogen.metadata(rng, n=2))
+            except Exception as e:  # noqa
+                ck.count(("fit-skip", name, j), nontrivial=False, bucket="fit skipped: " + type(e).__name__)
+                continue
+            fsig = {"class": "model", "model": name, "fitted": True, "model_branch": br, "temperature_unit": temp["temperature_unit"]}
+            before = _observe(pg, fit)
+            try:
+                text = isotherm_to_json(fit)
+                back = isotherm_from_json(text)
+                text2 = isotherm_to_json(back)
+            except Exception as e:  # noqa
+                ck.count(("fit-rt", name, j), bucket="model:fit of " + name)
+                ck.fail_case({**fsig, "clause": "export/import raises", "error": type(e).__name__}, {"error": repr(e)[:300], "model_dict": str(before["model"])[:300]})
+                continue
+            ck.count(("fit-rt", name, j, br), bucket="model:fit of " + name)
+            after = _observe(pg, back)
+            diffs = _diff(before, after)
+            if diffs:
+                ck.fail_case({**fsig, "clause": "re-imported content differs", "where": diffs[0][0]}, {"differences": diffs[:4]})
+            elif back.iso_id != fit.iso_id or not (back == fit):
+                ck.fail_case({**fsig, "clause": "identifier differs although content is equal"}, {"ids": [fit.iso_id, back.iso_id]})
+            elif text2 != text:
+                ck.fail_case({**fsig, "clause": "re-export differs from the document"}, {"first": text[:300], "second": text2[:300]})
+            if getattr(back, "branch", None) != br:
+                ck.fail_case({**fsig, "clause": "branch of the model differs after the round trip"}, {"before": br, "after": getattr(back, "branch", None)})
+            grid = np.linspace(float(pa[1]), float(pa[-1]), 7)
+            try:
+                with np.errstate(all="ignore"):
+                    a, b = np.asarray(fit.loading_at(grid), dtype=float), np.asarray(back.loading_at(grid), dtype=float)
+                    lg = np.linspace(float(min(la)) * 1.05 + 1e-3, float(max(la)) * 0.9, 5)
+                    a2, b2 = np.asarray(fit.pressure_at(lg), dtype=float), np.asarray(back.pressure_at(lg), dtype=float)
+            except Exception:
+                a = b = a2 = b2 = None
+            if a is not None and not (np.allclose(a, b, rtol=1e-12, atol=0, equal_nan=True) and np.allclose(a2, b2, rtol=1e-9, atol=0, equal_nan=True)):
+                ck.fail_case({**fsig, "clause": "model predictions differ after the round trip"}, {"loading_before": a.tolist(), "loading_after": b.tolist(), "pressure_before": a2.tolist(), "pressure_after": b2.tolist()})
+            lines.append("decode " + text)
+            plan.append(("decode", {"kind": "model"}, after, fsig, text))
+            lines.append("decodeframe " + text)
+            plan.append(("decodeframe", {"kind": "model"}, after, fsig, text))
     finally:
         for f in os.listdir(tmpdir):
             os.remove(os.path.join(tmpdir, f))
@@ -139,7 +227,7 @@ def run(ck):
                 ok = False
             else:
                 got = json.loads(rep)
-                if kind == "decode":
+                if kind in ("decode", "decodeframe"):
                     ok = _norm(got) == _norm(_iso_json(ref))
                 else:
                     ok = _norm(got) == _norm(json.loads(ref))
@@ -147,12 +235,49 @@ def run(ck):
             if not ok:
                 n_dis += 1
                 if n_dis <= 3:
-                    ck.broken.append({"step": f"correspondence Model/Json.lean ({kind})", "what": {"model": rep[:400], "implementation": (json.dumps(_iso_json(ref)) if kind == "decode" else ref)[:400]}})
+                    ck.broken.append({"step": f"correspondence Model/Json.lean ({kind})", "what": {"model": rep[:400], "implementation": (json.dumps(_iso_json(ref)) if kind != "encode" else ref)[:400]}})
     ck.cov["correspondence_disagreements"] = n_dis
     ck.cov["rule"] = ("seeded isotherm contents: metadata-only / point / model, all unit configurations (relative modes, fraction/percent, °C), metadata from a JSON-value grammar (unicode, number-, bool- and None-looking text, "
                       "ints up to 1e12, floats incl. ±0.0 / 1e-320 / 1.8e308, bools, None, flat lists, material dictionaries), 1-40 points with ads-only / two-branch / des-only / user-assigned marks and numeric, integer and text extra "
-                      "columns, all 16 models; string and file targets; distinct = distinct generated content")
+                      "columns, all 16 models; string and file targets, method and function; 4 of 9 contents with missing values (NaN in extra numeric columns / pressure / loading, None in text and flag "
+                      "columns, whole columns missing; models without fit error / ranges, exact zeros, des-branch models) crossed with every branch layout; every model kind as fitted from two-branch data; "
+                      "content observed through to_dict() and through the attributes; distinct = distinct generated content")
     ck.assumptions += ["python json module and pandas DataFrame.from_dict / to_dict", "Lean.Data.Json parser inside the driver"]
+
+
+UNIT_ATTRS = ("pressure_mode", "pressure_unit", "loading_basis", "loading_unit", "material_basis", "material_unit", "temperature_unit")
+
+
+def _plain(x):
+    """numpy scalars -> python numbers, tuples -> lists (JSON cannot keep either apart), dict keys kept."""
+    if hasattr(x, "item") and not isinstance(x, (list, tuple, dict, str)):
+        try:
+            return x.item()
+        except Exception:
+            return x
+    if isinstance(x, (list, tuple)):
+        return [_plain(v) for v in x]
+    if isinstance(x, dict):
+        return {k: _plain(v) for k, v in x.items()}
+    return x
+
+
+def _observe(pg, iso):
+    """`isogen.observe` (through `to_dict()`, the writer's own view) PLUS the same content read from the object's attributes directly:
+    a defect inside `to_dict` / `model.to_dict` distorts the first view of the original and of the re-imported isotherm alike and
+    would cancel out; the attributes of the original do not pass through the code under test."""
+    out = isogen.observe(pg, iso)
+    a = {"material": str(iso.material), "material_properties": _plain(dict(getattr(iso.material, "properties", {}) or {})),
+         "adsorbate": str(iso.adsorbate), "temperature_stored": _plain(iso._temperature), "metadata": _plain(dict(iso.properties))}
+    for u in UNIT_ATTRS:
+        a[u] = getattr(iso, u)
+    if isinstance(iso, pg.ModelIsotherm):
+        m = iso.model
+        a["model"] = {"name": m.name, "rmse": _plain(m.rmse), "parameters": _plain(dict(m.params)), "pressure_range": _plain(m.pressure_range),
+                      "loading_range": _plain(m.loading_range)}
+        a["model_branch"] = iso.branch
+    out["attrs"] = a
+    return out
 
 
 def _short(c):
@@ -160,6 +285,8 @@ def _short(c):
     if "pressure" in c:
         d["n_points"] = len(c["pressure"])
         d["pressure_head"] = c["pressure"][:6]
+        if len(c["pressure"]) <= 13:          # small tables in full: the replay file alone shows the failing input (NaN = missing cell)
+            d["table"] = {"pressure": c["pressure"], "loading": c["loading"], **c["extra"]}
     return json.loads(json.dumps(d, default=str))
 
 
@@ -182,10 +309,23 @@ def _diff(a, b):
                 if [int(x) for x in ca[k]] != [int(x) for x in cb[k]]:
                     out.append(("branch marks", ca[k][:12], cb[k][:12]))
             elif not isogen.same_value([_num(x) for x in ca[k]], [_num(x) for x in cb[k]]):
-                out.append((f"data column {k!r}", ca[k][:5], cb[k][:5]))
+                j = next((j for j, (x, y) in enumerate(zip(ca[k], cb[k])) if not isogen.same_value(_num(x), _num(y))), min(len(ca[k]), len(cb[k])))
+                out.append((f"data column {k!r}", {"points": [len(ca[k]), len(cb[k])], "first_difference_at": j, "exported": ca[k][j:j + 4], "imported": cb[k][j:j + 4]}, None))
     if a.get("model") != b.get("model") and not isogen.same_value(_jsonable(a.get("model")), _jsonable(b.get("model"))):
         out.append(("model", str(a.get("model"))[:200], str(b.get("model"))[:200]))
+    aa, ab = a.get("attrs", {}), b.get("attrs", {})
+    for k in sorted(set(aa) | set(ab)):
+        if not isogen.same_value(aa.get(k, "<absent>"), ab.get(k, "<absent>")):
+            out.append((f"attribute {k}", repr(aa.get(k, "<absent>"))[:200], repr(ab.get(k, "<absent>"))[:200]))
     return out
+
+
+def _layout(marks):
+    if not any(marks):
+        return "ads"
+    if all(marks):
+        return "des"
+    return "two" if list(marks) == sorted(marks) else "user"
 
 
 def _num(x):
@@ -216,10 +356,16 @@ def _iso_json(obs):
 def _norm(j):
     """Order-free, number-type-tolerant normal form of a parsed JSON value (1 vs 1.0 are told apart by the string form of ints)."""
     if isinstance(j, dict):
+        if list(j) == ["$pgv"]:
+            return "$" + j["$pgv"]       # the driver's spelling of NaN / ±Infinity
         return {k: _norm(v) for k, v in sorted(j.items())}
     if isinstance(j, list):
         return [_norm(v) for v in j]
     if isinstance(j, float):
+        if j != j:
+            return "$NaN"
+        if j in (float("inf"), float("-inf")):
+            return "$Infinity" if j > 0 else "$-Infinity"
         return float(repr(j))
     if isinstance(j, int) and not isinstance(j, bool) and abs(j) > 2 ** 63:
         return float(j)          # Lean prints 1.8e308 with all its digits; python reads that back as an int
